@@ -19,9 +19,12 @@ W == [nodes |-> nodes]
 Dirs == { n \in 1 .. Len(nodes) : nodes[n].kind = "dir" }
 LastParent == IF nodes = <<>> THEN 0 ELSE nodes[Len(nodes)].parent
 
+(* names: a kind letter, an awkward character on some nodes (backslash, space, dash: legal in file  *)
+(* names, special to shells, path splitting and the lexer), the node number; some with a leading dot *)
 NameOf(i, k, hid) == (IF hid THEN "." ELSE "") \o
                      (CASE k = "dir" -> "d" [] k = "file" -> "f" [] k = "symlink" -> "l"
                         [] k = "fifo" -> "p" [] k = "socket" -> "s" [] k = "chr" -> "c" [] k = "blk" -> "b")
+                     \o (CASE i % 4 = 1 -> "\\" [] i % 4 = 2 -> " " [] i % 4 = 0 -> "-" [] OTHER -> "")
                      \o ToString(i)
 
 Init == nodes = <<>> /\ phase = "build" /\ roots = <<>> /\ win = <<0, 0>>
